@@ -7,8 +7,7 @@
    wf_ty t : bool        well-formed descriptions (enum indices are bytes and distinct, map keys
                          are unsigned integers, slice/map elements are not zero-sized)
 
-   Sequences and maps are typed with fewer than 2^32 elements (like byte strings, whose decoder
-   enforces it); TSlice TU8 stands for a slice of a NAMED byte type: Go's []uint8 is []byte, TBytes.
+   TSlice TU8 stands for a slice of a NAMED byte type: Go's []uint8 is []byte, TBytes.
    Structs are described in WIRE order (the order pkg/scale's fieldScaleIndices produces); the
    mapping from declaration order + `scale:"n"` tags to wire order is Scale/FieldOrder.v. *)
 From Common Require Import Bytes.
@@ -111,9 +110,9 @@ Fixpoint has_type (v : value) (t : ty) {struct v} : bool :=
   | VEnum i v', TEnum alts =>
       match alt_lookup alts i with Some t' => has_type v' t' | None => false end
   | VList vs, TArray n t' => all_type vs t' && (vals_len vs =? n)%nat
-  | VList vs, TSlice t' => all_type vs t' && (N.of_nat (vals_len vs) <? 2 ^ 32)
+  | VList vs, TSlice t' => all_type vs t' && (N.of_nat (vals_len vs) <? 2 ^ 64)
   | VList vs, TStruct fs => has_types vs fs
-  | VMap kvs, TMap kt vt => kv_type kvs kt vt None && (N.of_nat (kvals_len kvs) <? 2 ^ 32)
+  | VMap kvs, TMap kt vt => kv_type kvs kt vt None && (N.of_nat (kvals_len kvs) <? 2 ^ 64)
   | _, _ => false
   end
 with all_type (vs : vals) (t : ty) {struct vs} : bool :=
